@@ -1,44 +1,10 @@
-import GscribModel.Model.Proto
-import GscribModel.Model.Socket
-/-! Line-protocol driver: `lake env lean --run Driver.lean <mode>` reads one case/operation per
-    line on stdin and prints exactly one record per line (`bad-op …` for an unparsable line). -/
-open GscribModel GscribModel.Proto
-
-namespace SocketDrv
-open GscribModel.Socket
-def parseEv (w : String) : Option Ev :=
-  match w.toList with
-  | ['a'] => some .again
-  | ['e'] => some .eof
-  | 'c' :: hex => match parseHex hex with
-      | some (b :: bs) => some (.chunk b bs)
-      | _ => none
-  | _ => none
-def showRes : Res → String
-  | .line l => "l" ++ toHex l
-  | .empty => "-"
-  | .eofR => "E"
-/-- `<ncalls> ev ev …` ↦ results, then the bytes still buffered -/
-def handle (line : String) : String :=
-  match words line with
-  | n :: evs =>
-    match n.toNat?, evs.mapM parseEv with
-    | some n, some evs =>
-      let r := calls n [] evs
-      " ".intercalate (r.1.map showRes) ++ " | buf=" ++ toHex r.2.1.flatten
-    | _, _ => "bad-op " ++ line
-  | _ => "bad-op " ++ line
-end SocketDrv
-
-partial def loopPure (h : IO.FS.Stream) (out : IO.FS.Stream) (f : String → String) : IO Unit := do
-  let line ← h.getLine
-  if line.isEmpty then return ()
-  out.putStrLn (f (line.dropEndWhile (· == (Char.ofNat 10))).toString)
-  loopPure h out f
+import GscribModel.Drv.Socket
+/-! Line-protocol driver: `driver <mode>` (or `lake env lean --run Driver.lean <mode>`) reads one
+    case/operation per line on stdin and prints exactly one record per line (`bad-op …` for an
+    unparsable line).  Each mode lives in `GscribModel/Drv/<Mode>.lean`. -/
+open GscribModel
 
 def main (args : List String) : IO UInt32 := do
-  let stdin ← IO.getStdin
-  let stdout ← IO.getStdout
   match args with
-  | ["socket"] => loopPure stdin stdout SocketDrv.handle; return 0
+  | ["socket"] => SocketDrv.main; return 0
   | _ => IO.eprintln s!"unknown mode {args}"; return 2
